@@ -380,6 +380,9 @@ pub fn check(tape: &[u32], st: &mut Stats) -> Result<(), String> {
             st.class("budget-exhausted");
             return Ok(());
         }
+        if std::env::var("LC3V_DEBUG").is_ok() {
+            eprintln!("{what}: A -> {} pc=x{:04X} psr=x{:04X} n={} depth={} | B -> {} pause={pause:?}", err_kind(&ra), a.sim.pc, a.sim.psr().get(), a.sim.instructions_run, a.sim.frame_stack.len(), err_kind(&rb));
+        }
         if err_kind(&ra) != err_kind(&rb) {
             return Err(format!("{what}: returned {}, repeated single steps give {}", err_kind(&ra), err_kind(&rb)));
         }
@@ -393,7 +396,7 @@ pub fn check(tape: &[u32], st: &mut Stats) -> Result<(), String> {
         if !matches!(pause, Pause::Halt | Pause::Error) {
             pauses += 1;
         }
-        if matches!(pause, Pause::Error | Pause::Halt | Pause::McrOff) {
+        if matches!(pause, Pause::Error | Pause::Halt | Pause::McrOff) || rb.is_err() {
             // the execution is over; calling run again would start a new execution (e.g. the OS HALT loop
             // runs three more instructions each time), which is not "splitting an execution"
             finished = true;
@@ -412,6 +415,9 @@ pub fn check(tape: &[u32], st: &mut Stats) -> Result<(), String> {
         if (!finished && stuck(&ra, &a.sim)) || stuck(&rc, &c.sim) {
             st.inconclusive += 1;
             return Ok(());
+        }
+        if std::env::var("LC3V_DEBUG").is_ok() {
+            eprintln!("final: A -> {} pc=x{:04X} n={} halt={} | C -> {} pc=x{:04X} n={} halt={} finished={finished}", err_kind(&ra), a.sim.pc, a.sim.instructions_run, a.sim.hit_halt(), err_kind(&rc), c.sim.pc, c.sim.instructions_run, c.sim.hit_halt());
         }
         if err_kind(&ra) != err_kind(&rc) {
             return Err(format!("segmented execution ends with {}, one unbroken run with {}", err_kind(&ra), err_kind(&rc)));
